@@ -18,6 +18,10 @@ type T4 struct{ ID int }
 type T5 struct{ ID int }
 type T6 struct{ ID int }
 
+// t7 prints in lower case ("scn.t7"): names are lower-cased by the library, so only such a type name can
+// occur inside a name (labels whose name or subtype contains the printed type, see SlashFamily).
+type t7 struct{ ID int }
+
 type I1 interface{ I1() }
 type I2 interface{ I2() }
 
@@ -34,7 +38,7 @@ func (T3) I2() {}
 
 var typeByName = map[string]reflect.Type{
 	"T1": reflect.TypeOf(T1{}), "T2": reflect.TypeOf(T2{}), "T3": reflect.TypeOf(T3{}),
-	"T4": reflect.TypeOf(T4{}), "T5": reflect.TypeOf(T5{}), "T6": reflect.TypeOf(T6{}),
+	"T4": reflect.TypeOf(T4{}), "T5": reflect.TypeOf(T5{}), "T6": reflect.TypeOf(T6{}), "T7": reflect.TypeOf(t7{}),
 	"I1": reflect.TypeOf((*I1)(nil)).Elem(), "I2": reflect.TypeOf((*I2)(nil)).Elem(),
 	"I12": reflect.TypeOf((*I12)(nil)).Elem(),
 	// U1 is an unnamed struct type: every Tk is assignable to it (and back) without being
